@@ -79,6 +79,7 @@ def obligations(tier):
     for hextf in (None, "T2"):
         nn = 7 if tier == "quick" else 9
         obs.append(Ob(f"hexital-multi-timeframe/hexital-tf={hextf}/n={nn}", dict(n=nn, hextf=hextf), EQ, fn="run_multi_tf", weight=40, budget_s=600))
+        obs.append(Ob(f"hexital-multi-timeframe/hexital-tf={hextf}/Heikin-Ashi/n={nn}", dict(n=nn, hextf=hextf, ha=True), EQ, fn="run_multi_tf", weight=40, budget_s=600))
     # the recorded finding (known_findings.json): a member timeframe that is NOT a multiple of the Hexital's own timeframe is
     # seeded from the already collapsed base candles at construction, while appended candles reach it raw
     obs.append(Ob("hexital-multi-timeframe/hexital-tf=T2/member-tf=T3 (not a multiple)/n=7", dict(n=7, hextf="T2", other="T3"), EQ, fn="run_multi_tf", weight=40, budget_s=600, selfcheck=False))
@@ -119,6 +120,8 @@ def run_multi_tf(ctx, P):
     n = P["n"]
     cs = mk_candles(ctx, n)
     level = dict(timeframe=P["hextf"]) if P.get("hextf") else {}
+    if P.get("ha"):
+        level["candlestick_type"] = "HA"
 
     def members():
         other = P.get("other") or ("T6" if P.get("hextf") else "T2")        # T4 / T6: multiples of a Hexital-level T2 (nested buckets)
